@@ -81,6 +81,36 @@ pub fn corpus() -> Vec<(String, Box<dyn Fn(&dyn QueryBuilder) -> (String, Values
         let mut w = WindowStatement::partition_by(a("g"));
         w.order_by_expr(Expr::col(a("x")).add(22).into(), Order::Asc).frame_between(FrameType::Rows, Frame::Preceding(2), Frame::Following(3));
         let mut s = Query::select(); s.expr_window_as(Expr::col(a("x")).sum(), w, a("s")).from(a("t")).and_where(Expr::col(a("c")).eq(23)); s });
+    // function builders (Func::*, PgFunc::*): every argument given is bound once, in argument order (a regconfig first)
+    {
+        use sea_query::extension::postgres::PgFunc;
+        let v = |i: i32| Expr::val(i);
+        let fns: Vec<(&str, FunctionCall, &str)> = vec![
+            ("max", Func::max(v(41)), "41"), ("min", Func::min(v(41)), "41"), ("sum", Func::sum(v(41)), "41"), ("avg", Func::avg(v(41)), "41"), ("abs", Func::abs(v(41)), "41"),
+            ("count", Func::count(v(41)), "41"), ("count_distinct", Func::count_distinct(v(41)), "41"), ("char_length", Func::char_length(v(41)), "41"),
+            ("greatest", Func::greatest([v(41).into(), v(42).into(), v(43).into()]), "41,42,43"), ("least", Func::least([v(41).into(), v(42).into()]), "41,42"),
+            ("if_null", Func::if_null(v(41), v(42)), "41,42"), ("cast_as", Func::cast_as(v(41), a("int")), "41"), ("coalesce", Func::coalesce([v(41).into(), v(42).into(), v(43).into()]), "41,42,43"),
+            ("lower", Func::lower(v(41)), "41"), ("upper", Func::upper(v(41)), "41"), ("bit_and", Func::bit_and(v(41)), "41"), ("bit_or", Func::bit_or(v(41)), "41"),
+            ("round", Func::round(v(41)), "41"), ("round_with_precision", Func::round_with_precision(v(41), v(42)), "41,42"), ("md5", Func::md5(v(41)), "41"),
+            ("custom", Func::cust(a("f")).arg(v(41)).arg(v(42)).args([v(43).into(), v(44).into()]).arg(v(45)), "43,44,45"),
+            ("to_tsquery cfg", PgFunc::to_tsquery(v(41), Some(40)), "40,41"), ("to_tsvector cfg", PgFunc::to_tsvector(v(41), Some(40)), "40,41"),
+            ("phraseto_tsquery cfg", PgFunc::phraseto_tsquery(v(41), Some(40)), "40,41"), ("plainto_tsquery cfg", PgFunc::plainto_tsquery(v(41), Some(40)), "40,41"),
+            ("websearch_to_tsquery cfg", PgFunc::websearch_to_tsquery(v(41), Some(40)), "40,41"), ("websearch_to_tsquery", PgFunc::websearch_to_tsquery(v(41), None), "41"),
+            ("to_tsquery", PgFunc::to_tsquery(v(41), None), "41"), ("ts_rank", PgFunc::ts_rank(v(41), v(42)), "41,42"), ("ts_rank_cd", PgFunc::ts_rank_cd(v(41), v(42)), "41,42"),
+            ("starts_with", PgFunc::starts_with(v(41), v(42)), "41,42"),
+            ("json_build_object", PgFunc::json_build_object(vec![(v(41), v(42)), (v(43), v(44))]), "41,42,43,44"), ("json_agg", PgFunc::json_agg(v(41)), "41"),
+            ("array_agg", PgFunc::array_agg(v(41)), "41"), ("array_agg_distinct", PgFunc::array_agg_distinct(v(41)), "41"),
+        ];
+        for (name, f, want) in fns {
+            add!(format!("func {name} expect-pg=[{want},99] expect-my=[{want},99]"), Query::select().expr(f).from(a("t")).and_where(Expr::col(a("c")).eq(99)).to_owned());
+        }
+    }
+    // UPDATE with extra tables: MySQL moves the condition into JOIN .. ON (bound BEFORE the SET values, once); Postgres keeps WHERE
+    for nf in 0..3usize {
+        let mut u = Query::update(); u.table(a("t")).value(a("x"), 31).value(a("y"), 32).and_where(Expr::col(a("c")).gt(33));
+        for f in ["f1", "f2"].iter().take(nf) { u.from(a(f)); }
+        add!(format!("update from#{nf} expect-pg=[31,32,33] expect-my={}", if nf == 0 { "[31,32,33]" } else { "[33,31,32]" }), u);
+    }
     add!("with", base(13).with(Query::with().cte(CommonTableExpression::new().query(base(10)).table_name(a("w")).to_owned()).to_owned()));
     v
 }
